@@ -97,7 +97,7 @@ class VInner:
         return self.real.get_set(key, getter)
 
 
-def make_getter(s, kname, key, outcome, lazy):
+def make_getter(s, kname, key, outcome, lazy, gen=False):
     """The caller's getter. Its body runs when the inner cache really produces the value (lazy:
     DiskCacher iterates the lines after creating the file)."""
     def produce():
@@ -111,7 +111,7 @@ def make_getter(s, kname, key, outcome, lazy):
             yield v
             if i < len(vals) - 1: s.op("writing", None, lambda: True, lambda: None)
         s.op("putE", None, lambda: True, lambda: s.log(e="putE", k=kname, g="ok", c=vsched._tls.acting.name))
-    if lazy:
+    if lazy or gen:      # gen: a getter may hand a memory-like cache a lazy generator too (it is drained inside the inner get_set)
         return lambda: produce()
     return lambda: list(produce())
 
@@ -163,14 +163,15 @@ def run_one(policy, progs, disk, keys, tmpdir, max_steps=4000):
             return s.op("putB", None, lambda: True, lambda: (s.log(e="putB", k=kname, c=vsched._tls.acting.name), gzip.open(path, mode, *a, **k))[1])
         return gzip.open(path, mode, *a, **k)
     C.gzip = types.SimpleNamespace(open=vgzip_open)
-    errors = []
+    errors = []; ngs = [0]
     def caller(cname, prog):
         for op in prog:
             s.op("begin", None, lambda: True, lambda: s.log(e="begin", c=cname))
             key = keys[op["k"]]
             try:
                 if op["t"] == "gs":
-                    with cc.get_set(key, make_getter(s, op["k"], key, op["g"], disk)) as v:
+                    ngs[0] += 1
+                    with cc.get_set(key, make_getter(s, op["k"], key, op["g"], disk, gen=(ngs[0] % 2 == 1))) as v:
                         s.log(e="enter", c=cname)
                         s.op("body", None, lambda: True, lambda: None)
                         try:
